@@ -11,18 +11,21 @@ EXTENDS Naturals, Sequences, FiniteSets, TLC, Json
 Classes == {"valid", "blank", "garbage", "conflict", "nonobject", "truncated", "longutf8",
             "nul", "bom", "overlong", "unknown_type", "empty_object", "wrong_field_type",
             "bad_timestamp", "duplicate_create", "event_before_create", "tie_timestamps",
-            "deep_nesting", "huge_valid_body", "dep_cycle"}
+            "deep_nesting", "huge_valid_body", "dep_cycle", "many_edges"}
 Positions == {"middle", "last"}
+\* (*_human: the same read without --json)
 Commands == {"list", "list_epics", "list_ready", "show", "prune_dry", "where", "quickstart",
+             "list_human", "list_all_human", "show_human", "show_epic_human",
              "claim", "new_task", "set", "compact", "prune", "sequence", "sequence_rm", "sequence_new"}
-ReadOnly == {"list", "list_epics", "list_ready", "show", "prune_dry", "where", "quickstart"}
+ReadOnly == {"list", "list_epics", "list_ready", "show", "prune_dry", "where", "quickstart",
+             "list_human", "list_all_human", "show_human", "show_epic_human"}
 
 \* lines that are not valid JSON (for an Event): the error must name file and line
 NotJSON == {"garbage", "conflict", "nonobject", "truncated", "longutf8", "nul", "bom"}
 \* lines that are valid JSON but make replay fail: an error message is enough
 ReplayFails == {"wrong_field_type", "bad_timestamp", "duplicate_create"}
 Harmless == {"valid", "blank", "unknown_type", "empty_object", "event_before_create", "tie_timestamps",
-             "deep_nesting", "huge_valid_body", "dep_cycle"}
+             "deep_nesting", "huge_valid_body", "dep_cycle", "many_edges"}
 
 Cases == {[class |-> c, pos |-> p, nl |-> n, cmd |-> m] :
             c \in Classes, p \in Positions, n \in BOOLEAN, m \in Commands}
@@ -46,7 +49,7 @@ C12_file_names_line(r) ==
   (r.case.class \in NotJSON /\ ~Tolerated(r.case) /\ NeedsLog(r.case)) => (r.exit = 1 /\ r.names_line)
 \* valid-but-odd lines do not make commands fail
 C12_file_shows(r) ==
-  (r.case.class \in Harmless /\ r.case.cmd \in ReadOnly /\ r.case.cmd # "show") => r.exit = 0
+  (r.case.class \in Harmless /\ r.case.cmd \in ReadOnly /\ r.case.cmd \notin {"show", "show_human"}) => r.exit = 0
 \* the same log gives the same output
 C12_file_deterministic(r) == r.same_twice
 \* reads never change the log
